@@ -10,6 +10,7 @@ use crate::identifiers::{ConnectionId, PlayerId, RequestId};
 #[cfg_attr(feature = "serde", derive(serde::Serialize))]
 /// InsIm Info -  a /i message from user to hosts Insim
 pub struct Iii {
+    #[brw(pad_after = 1)]
     /// Non-zero if the packet is a packet request or a reply to a request
     pub reqi: RequestId,
 
